@@ -15,11 +15,11 @@ def b01 (b : Bool) : String := if b then "1" else "0"
   let τ := perturb σ P delta
   "(" ++ answer σ qs ++ " " ++ answer (rexec driverFuel region σ) qs ++ " " ++ answer (rexec driverFuel region τ) qs ++ ")"
 
-/-- `(inout <stmt>)` → `((inputs) (outputs) WholeFirstWrites OutputsDefined)`;
+/-- `(inout <stmt>)` → `((inputs) (outputs) WholeFirstWrites OutputsDefined covered)`;
 `(replay <prefix> <region> (<perturbed vars>) <delta> (<queries>))` → values at the queries
 before the region, after it, and after it when started from the perturbed store;
 `(extract (<items>))` → `(accept|refuse (inputs) (outputs))` (ExtractTrans decision, and the plain
-get_in_out_parameters lists where CodeBlock items contribute nothing);
+get_in_out_parameters lists; a CodeBlock item `(x (opaque ...))` contributes READWRITE of its names);
 `(calls (<non-local vars>) (<callee body> ...))` → `((inputsCalls) (outputsCalls))`. -/
 def handle (s : Sexp) : String :=
   match s with
@@ -28,7 +28,7 @@ def handle (s : Sexp) : String :=
     | none => "bad-stmt"
     | some st =>
       "(" ++ showNats (inputs st) ++ " " ++ showNats (outputs st) ++ " "
-        ++ b01 (decide (WholeFirstWrites st)) ++ " " ++ b01 (outDefined st) ++ ")"
+        ++ b01 (decide (WholeFirstWrites st)) ++ " " ++ b01 (outDefined st) ++ " " ++ b01 (covered st) ++ ")"
   | .list [.atom "replay", pre, reg, pv, d, qs] =>
     match parseRStmt pre, parseRStmt reg, d.int? with
     | some pr, some rg, some delta =>
